@@ -177,7 +177,13 @@ Theorem c14_handler_fact_client_closes_both_ends : Gen.HandlerShape.listener_clo
 Proof. reflexivity. Qed.
 Theorem c14_handler_fact_client_closes_refused_stream : Gen.HandlerShape.client_open_stream_closes_refused = true.
 Proof. reflexivity. Qed.
-Theorem c14_handler_source_facts : shape_ok code_shape = true.
+Theorem c14_handler_fact_direct_path_closes_both_ends :
+  Gen.HandlerShape.connect_directly_closes_conn = true /\ Gen.HandlerShape.connect_directly_closes_direct = true.
+Proof. split; reflexivity. Qed.
+(* the server's switches, and all of them (the client's included: a refused stream is closed, HandleConnection and ConnectDirectly close both ends) *)
+Theorem c14_handler_source_facts : shape_ok_server code_shape = true.
+Proof. reflexivity. Qed.
+Theorem c14_client_source_facts : shape_ok code_shape = true.
 Proof. reflexivity. Qed.
 
 (* RECLAMATION, one logical connection. In every reachable state: if the connection is over (either side hung up or failed, the session
@@ -185,7 +191,7 @@ Proof. reflexivity. Qed.
    dial of it is still in flight, and none of its goroutines can take a step any more, then its handler goroutine has returned, neither
    copy loop is left (none is blocked on a report channel), its stream is closed, and its target connection is closed - or, while muxHandler
    does not close it itself, is one whose target hung up first (c14_handler_target_left_only_after_target_eof). *)
-Theorem c14_handler_connection_reclaimed : forall sh evs i c, shape_ok sh = true ->
+Theorem c14_handler_connection_reclaimed : forall sh evs i c, shape_ok_server sh = true ->
   let s := run sh evs in
   nth_error (g_conns s) i = Some c -> k_h c <> HNone -> ended s c = true -> dial_settled c = true -> conn_quiet sh s i = true ->
   released sh c = true.
@@ -197,14 +203,14 @@ Proof. exact released_target. Qed.
 (* RECLAMATION, the session. After the session has died - in any manner, with any number of logical connections in any states - once no
    dial is in flight and no goroutine can take a step, the accept loop has exited and nothing of the session is left: the footprint
    (goroutines, streams held, target connections held and still of use) is zero, whatever the number of past connections. *)
-Theorem c14_handler_session_reclaimed : forall sh evs, shape_ok sh = true ->
+Theorem c14_handler_session_reclaimed : forall sh evs, shape_ok_server sh = true ->
   let s := run sh evs in
   g_dead s <> Alive -> quiet sh s = true -> forallb dial_settled (g_conns s) = true ->
   g_acc s = AExited /\ (forall i c, nth_error (g_conns s) i = Some c -> k_h c <> HNone -> released sh c = true) /\ footprint s = 0.
 Proof. exact session_reclaimed_run. Qed.
 
 (* NO BUSY LOOP. A terminal accept error ends the loop with its next step, and a loop that has ended never takes another step. *)
-Theorem c14_handler_accept_exits : forall sh evs, shape_ok sh = true ->
+Theorem c14_handler_accept_exits : forall sh evs, shape_ok_server sh = true ->
   let s := run sh evs in
   g_acc s = AAccept -> g_dead s <> Alive \/ g_closed s = true ->
   g_acc (step sh s (SAccept true)) = AExited /\ (first_pending (g_conns s) 0 = None -> g_acc (step sh s (SAccept false)) = AExited).
@@ -217,15 +223,14 @@ Theorem c14_handler_quiescent_is_idle : forall sh s evs, quiet sh s = true -> fo
 Proof. exact quiet_stuck. Qed.
 
 (* RECLAMATION on the client (listener.HandleConnection for one local connection, ConnectDirectly included): when the connection is over,
-   nothing it asked for is in flight and its goroutines have taken their remaining steps, then - through the tunnel - the local connection
-   and the stream are both closed and no goroutine is left (a refused stream included); piped directly to a forward address no goroutine is
-   left and an end stays open only if it is the one whose peer hung up first. *)
+   nothing it asked for is in flight and its goroutines have taken their remaining steps, then the local connection and the stream - or, piped
+   directly to a forward address, the connection to that address - are both closed and no goroutine is left (a refused stream included; and no
+   exception for the end whose own peer hung up first: c14_client_direct_left_open_refuted is the code before ConnectDirectly closed its ends). *)
 Theorem c14_client_reclaimed : forall sh f evs, shape_ok sh = true ->
   let l := lrun sh (l_new f) evs in
-  l_ended l = true -> l_settled l = true -> l_quiet sh l = true -> (if l_direct l then l_released_direct l else l_released l) = true.
+  l_ended l = true -> l_settled l = true -> l_quiet sh l = true -> l_released l = true.
 Proof. exact client_reclaimed_run. Qed.
 
-(* (on the shape with muxHandler as it is today: the switch sh_mh_closes_up is the one the statements leave open) *)
 Example c14_handler_hypotheses_meet :
   shape_ok intended = true /\
   let evs := [EOpen; ESelect 0 true; EDial 0 true; EOpen; ESelect 1 true; EOpen; ESelect 2 false; EOpen; EOpen; ESelect 4 true; EDial 4 true; ETgEof 4;
@@ -239,7 +244,9 @@ Example c14_handler_hypotheses_meet :
 Proof. vm_compute. repeat split. Qed.
 Example c14_client_hypotheses_meet :
   let l := lsettle code_shape 20 (lstep code_shape (lsettle code_shape 20 (lrun code_shape (l_new false) [LConnFate true; LHand false; LAnswer true])) LUpEof) in
-  l_ended l = true /\ l_settled l = true /\ l_quiet code_shape l = true /\ l_direct l = false /\ l_released l = true /\ l_goroutines l = 0.
+  l_ended l = true /\ l_settled l = true /\ l_quiet code_shape l = true /\ l_direct l = false /\ l_released l = true /\ l_goroutines l = 0 /\
+  let d := lsettle intended 20 (lstep intended (lsettle intended 20 (lrun intended (l_new true) [LFwdFate true])) LAppClose) in
+  l_ended d = true /\ l_settled d = true /\ l_quiet intended d = true /\ l_direct d = true /\ l_released d = true /\ l_goroutines d = 0.
 Proof. vm_compute. repeat split. Qed.
 
 (* The defects this code has been the target of, each refuted on the variant that has it - and the same history on the code as it is. *)
@@ -271,13 +278,28 @@ Theorem c14_handler_refused_left_open_refuted :
   (forall evs, forallb is_sched evs = true -> run_from intended s evs = s) /\
   footprint (script intended (flat_map (fun i => [EOpen; ESelect i false; EAppClose i]) (seq 0 3))) = 1.
 Proof. exact refused_left_open_server_refuted. Qed.
+(* (where the caller closes both ends itself after the pipe - the server's handler, HandleConnection, ConnectDirectly since its repair - the
+   wrong close is made good; the witness is the direct path before that repair) *)
 Theorem c14_client_wrong_side_refuted :
   let l := lrun (variant DWrongSide) (l_new true) target_hangs_up_direct in
   l_quiet (variant DWrongSide) l = true /\ l_ended l = true /\ l_settled l = true /\ l_pc l = LDone /\ l_direct l = true /\
-  e_closed (l_app l) = false /\ e_eof (l_app l) = false /\ p_cd (l_p l) = CRun /\ l_goroutines l = 1 /\ l_released_direct l = false /\
-  let g := lrun intended (l_new true) target_hangs_up_direct in
-  l_quiet intended g = true /\ e_closed (l_app g) = true /\ l_goroutines g = 0 /\ l_released_direct g = true.
+  e_closed (l_app l) = false /\ e_eof (l_app l) = false /\ p_cd (l_p l) = CRun /\ l_goroutines l = 1 /\ l_released l = false /\
+  let g := lrun (variant DDirectOpen) (l_new true) target_hangs_up_direct in
+  l_quiet (variant DDirectOpen) g = true /\ e_closed (l_app g) = true /\ l_goroutines g = 0 /\ l_released_direct g = true.
 Proof. exact wrong_side_refuted. Qed.
+(* ConnectDirectly closing nothing after its pipe (the code before the repair): the end whose own peer hung up first is never closed - the local
+   connection when the application closes first, the connection to the forward address when the target does - whatever happens afterwards
+   (for every continuation; in reality: until the collector finds the descriptor) *)
+Theorem c14_client_direct_left_open_refuted :
+  let sh := variant DDirectOpen in
+  let a := lrun sh (l_new true) app_closes_direct in
+  let t := lrun sh (l_new true) target_closes_direct in
+  l_quiet sh a = true /\ l_ended a = true /\ l_settled a = true /\ l_goroutines a = 0 /\ l_released a = false /\
+  (forall evs, e_closed (l_app (lrun sh a evs)) = false) /\
+  l_quiet sh t = true /\ l_ended t = true /\ l_settled t = true /\ l_goroutines t = 0 /\ l_released t = false /\
+  (forall evs, e_closed (l_upc (lrun sh t evs)) = false) /\
+  l_released (lrun intended (l_new true) app_closes_direct) = true /\ l_released (lrun intended (l_new true) target_closes_direct) = true.
+Proof. exact direct_left_open_refuted. Qed.
 Theorem c14_handler_slot_leak_refuted :
   let s := script (variant DSlotLeak) refusals_then_open in
   reach (variant DSlotLeak) s /\ quiet (variant DSlotLeak) s = true /\ g_dead s = Alive /\ g_acc s = ASlot /\
@@ -287,6 +309,7 @@ Theorem c14_handler_slot_leak_refuted :
 Proof. exact slot_leak_refuted. Qed.
 
 Print Assumptions c14_handler_source_facts.
+Print Assumptions c14_client_source_facts.
 Print Assumptions c14_handler_connection_reclaimed.
 Print Assumptions c14_handler_target_left_only_after_target_eof.
 Print Assumptions c14_handler_session_reclaimed.
@@ -300,4 +323,5 @@ Print Assumptions c14_handler_continue_spins_refuted.
 Print Assumptions c14_client_refused_left_open_refuted.
 Print Assumptions c14_handler_refused_left_open_refuted.
 Print Assumptions c14_client_wrong_side_refuted.
+Print Assumptions c14_client_direct_left_open_refuted.
 Print Assumptions c14_handler_slot_leak_refuted.
